@@ -38,6 +38,7 @@ class Session:
         self.wfd = self.p.stdin.fileno()
         self.rfd = self.p.stdout.fileno()
         self.efd = self.p.stderr.fileno()
+        os.set_blocking(self.wfd, False)
         self.obuf = b""          # unparsed daemon output
         self.out_all = b""       # everything the daemon wrote
         self.err = b""
@@ -139,7 +140,9 @@ class Session:
                 continue
             try:
                 n = os.write(self.wfd, mv[:32768])
-            except (BrokenPipeError, OSError):
+            except BlockingIOError:
+                continue
+            except OSError:
                 self.broken_pipe = True
                 return False
             mv = mv[n:]
